@@ -208,6 +208,11 @@ func setKeys(m map[string]bool) []string {
 }
 
 func ruleFieldCorrespondence(c *Ctx, pf *parserFacts, leaves map[*types.Var]string) {
+	ruleFieldCorrespondenceFor(c, pf, leaves, "R10.1", nil)
+}
+
+// ruleFieldCorrespondenceFor restricts the check to destinations accepted by only (nil = all, incl. the coverage obligations).
+func ruleFieldCorrespondenceFor(c *Ctx, pf *parserFacts, leaves map[*types.Var]string, rule string, only func(dest string) bool) {
 	reached := map[string]bool{}
 	seenDest := map[string]bool{}
 	for _, typ := range []string{"Key", "Analog", "Defaults", "Colors", "Config", "KeyMapping", "InputID"} {
@@ -225,7 +230,7 @@ func ruleFieldCorrespondence(c *Ctx, pf *parserFacts, leaves map[*types.Var]stri
 				reached[k] = true
 			}
 			want, tracked := fieldSources[dest]
-			if !tracked {
+			if !tracked || (only != nil && !only(dest)) {
 				continue // container-valued fields (maps/slices of structs): covered through their elements
 			}
 			seenDest[dest] = true
@@ -264,9 +269,9 @@ func ruleFieldCorrespondence(c *Ctx, pf *parserFacts, leaves map[*types.Var]stri
 				}
 			}
 			if bad != "" {
-				c.Bad("R10.1", key, pos, fmt.Sprintf("%s %s (data sources %v, control %v); the file's %v must determine it", dest, bad, setKeys(data), setKeys(ctl), want))
+				c.Bad(rule, key, pos, fmt.Sprintf("%s %s (data sources %v, control %v); the file's %v must determine it", dest, bad, setKeys(data), setKeys(ctl), want))
 			} else {
-				c.OK("R10.1", key, pos, fmt.Sprintf("data %v control %v", setKeys(data), setKeys(ctl)))
+				c.OK(rule, key, pos, fmt.Sprintf("data %v control %v", setKeys(data), setKeys(ctl)))
 			}
 		}
 	}
@@ -287,9 +292,12 @@ func ruleFieldCorrespondence(c *Ctx, pf *parserFacts, leaves map[*types.Var]stri
 			}
 		}
 	}
+	if only != nil {
+		return
+	}
 	for dest := range fieldSources {
 		if !seenDest[dest] {
-			c.Bad("R10.1", "config.ParseData/"+dest+"<-sources", c.P.Pos(pf.fn.Pos()), "destination field "+dest+" is never set from the file")
+			c.Bad(rule, "config.ParseData/"+dest+"<-sources", c.P.Pos(pf.fn.Pos()), "destination field "+dest+" is never set from the file")
 		}
 	}
 	var unused []string
@@ -299,7 +307,7 @@ func ruleFieldCorrespondence(c *Ctx, pf *parserFacts, leaves map[*types.Var]stri
 		}
 	}
 	sort.Strings(unused)
-	c.Check(len(unused) == 0, "R10.1", "config.ParseData/every-toml-field-used", c.P.Pos(pf.fn.Pos()), fmt.Sprintf("all %d TOML leaf fields influence the result", len(leaves)),
+	c.Check(len(unused) == 0, rule, "config.ParseData/every-toml-field-used", c.P.Pos(pf.fn.Pos()), fmt.Sprintf("all %d TOML leaf fields influence the result", len(leaves)),
 		fmt.Sprintf("TOML fields that are decoded but never reach the configuration: %v", unused))
 }
 
